@@ -38,16 +38,17 @@ Theorem C05_skip_fuel_sufficient : forall fuel d ty bs, (2 * length bs + 2 <= fu
   fst (skip_field fuel d ty bs) <> SFuel /\ (length (snd (skip_field fuel d ty bs)) <= length bs)%nat.
 Proof. exact (fun fuel => proj1 (TotalProofs.skip_fuel fuel)). Qed.
 
-(* instantiated on the schemas regenerated from the tree *)
-Theorem C05_code_schemas_fuel : forall sid prior bs, tfin 8 env0 (TStruct sid) = true -> decode_into env0 sid prior bs <> DFuel.
+(* instantiated on the schemas regenerated from the tree (per struct type; independent of their number and order) *)
+Theorem C05_code_schemas_fuel : forall sid prior bs, fits_model sid = true -> decode_into env0 sid prior bs <> DFuel.
 Proof. exact RoundTripExamples.env0_fuel. Qed.
-Theorem C05_code_schemas_total : forall sid prior bs, safe_ty 8 env0 (TStruct sid) = true ->
+Theorem C05_code_schemas_total : forall sid prior bs, safe_ty 8 env0 (TStruct sid) = true -> fits_model sid = true ->
   total_out (decode_into env0 sid prior bs).
 Proof. exact RoundTripExamples.env0_total. Qed.
-Theorem C05_code_schemas_safe_types :
-  filter (fun sid => safe_ty 8 env0 (TStruct sid)) (seq 0 (length env0))
-  = [0; 1; 2; 3; 4; 5; 6; 8; 9; 10; 11; 12; 13; 14; 15; 17; 20; 21; 22; 23; 27]%nat.
-Proof. exact RoundTripExamples.env0_safe_types. Qed.
+Theorem C05_code_schemas_safe_examples :
+  forallb (fun sid => safe_ty 8 env0 (TStruct sid) && fits_model sid)
+          [sid_verifidl_Scalars; sid_endpointf_EndpointF; sid_authf_BasicAuthInfo; sid_authf_TokenKey; sid_statf_StatMicMsgHead] = true
+  /\ safe_ty 8 env0 (TStruct sid_requestf_RequestPacket) = false.
+Proof. exact RoundTripExamples.env0_safe_examples. Qed.
 
 (* proved: the scalar layer of the decoder never panics or over-allocates, for all bytes *)
 Theorem C05_scalar_layer_safe : forall fuel tag req t prior bs,
@@ -66,6 +67,6 @@ Print Assumptions C05_fuel_sufficient.
 Print Assumptions C05_skip_fuel_sufficient.
 Print Assumptions C05_code_schemas_fuel.
 Print Assumptions C05_code_schemas_total.
-Print Assumptions C05_code_schemas_safe_types.
+Print Assumptions C05_code_schemas_safe_examples.
 Print Assumptions C05_scalar_layer_safe.
 Print Assumptions C05_skip_depth_limit.
